@@ -13,6 +13,7 @@ use crate::g_misc::GMisc;
 use crate::g_new::GNew;
 use crate::g_seq::GSeq;
 use crate::g_serde::GSerde;
+use crate::g_wide::GWide;
 use crate::g_zip::GZip;
 use crate::ops::*;
 use crate::world::*;
@@ -92,6 +93,7 @@ impl<E: Elem> World<E> {
             OpKind::SerReal => GSerde(self).op_ser_real(cx, a),
             OpKind::DeScripted => GSerde(self).op_de_scripted(cx, a),
             OpKind::DeReal => GSerde(self).op_de_real(cx, a),
+            OpKind::WideOp => GWide(self).op_wide(cx, a),
         }
     }
 }
